@@ -196,7 +196,8 @@ def evaluate(p, n, app, sym, ev, sv, atoms):
     if t == 'MVar':
         return atoms[p]
     if t == 'ESub':
-        assert p[3][0] == 'EVar'
+        if p[3][0] != 'EVar':
+            return atoms[p]          # opaque node: constant atoms are admissible semantic atoms
         e2 = dict(ev)
         e2[p[2]] = ev.get(p[3][1], 0)
         return evaluate(p[1], n, app, sym, e2, sv, atoms)
@@ -209,9 +210,9 @@ def evaluate(p, n, app, sym, ev, sv, atoms):
 
 def mvars_of(p, acc):
     t = p[0]
-    if t == 'MVar':
+    if t == 'MVar' or (t == 'ESub' and p[3][0] != 'EVar'):
         acc.add(p)
-    else:
+    if t != 'MVar':
         for q in p[1:]:
             if isinstance(q, tuple) and q and isinstance(q[0], str):
                 mvars_of(q, acc)
@@ -220,8 +221,6 @@ def mvars_of(p, acc):
 
 def find_countermodel(p, rng, tries=24):
     """search small models for a point where p fails (constant atoms: valid semantic atoms)"""
-    if has_general_esubst(p):
-        return None
     ms = sorted(mvars_of(p, set()))
     for t in range(tries):
         n = 1 if t == 0 else (2 if t < tries - 4 else 3)
